@@ -11,19 +11,9 @@ Definition obj_ok (bs : list buf) (o : obj) : Prop :=
   refs_ok bs o
   /\ props_fit bs (oprops o) (length (onames o)) = true
   /\ length (onames o) = fp_num (view bs o)
-  /\ oindex o = names_map [] (onames o) 0
-  /\ (onames o = [] -> oprops o = []).
+  /\ oindex o = names_map [] (onames o) 0.
 
 Definition state_ok (s : state) : Prop := forall oid o, nth_error (objs s) oid = Some o -> obj_ok (bufs s) o.
-
-(* the domain of the invariant: from_array gets one name per row; property columns are not attached to a database
-   without rows (set_prop('p', []) on an empty database followed by an addition leaves a length-0 column behind) *)
-Definition op_dom (s : state) (o : op) : Prop :=
-  match o with
-  | OpFromArray _ _ _ _ rs names cols => length rs = length names /\ (names = [] -> cols = [])
-  | OpSetProp h _ _ | OpUpdateProps h _ => forall oid ob, lookup s h = Some (oid, ob) -> onames ob <> []
-  | _ => True
-  end.
 
 (* ---- stability under allocation *)
 Lemma view_rows_app bs e c :
@@ -56,7 +46,7 @@ Proof. intros H L. eapply Forall_impl; [|exact H]. simpl. intros; lia. Qed.
 
 Lemma obj_ok_app bs e o : obj_ok bs o -> obj_ok (bs ++ e) o.
 Proof.
-  intros (Hr & Hf & Hn & Hi & He). pose proof Hr as [Ha Hp].
+  intros (Hr & Hf & Hn & Hi). pose proof Hr as [Ha Hp].
   repeat split; try assumption.
   - destruct (oarr o); [rewrite app_length; lia | exact Ha].
   - eapply Forall_lt_app; [exact Hp | rewrite app_length; lia].
@@ -187,12 +177,11 @@ Qed.
 Lemma alloc_cols_nil cols bs bs1 ps : alloc_cols bs cols = (bs1, ps) -> cols = [] -> ps = [].
 Proof. intros H ->. simpl in H. inv H. reflexivity. Qed.
 
-Lemma new_db_fresh_ok s k lv bits rs names cols :
-  state_ok s -> length rs = length names -> (names = [] -> cols = []) -> state_ok (fst (new_db_fresh s k lv bits rs names cols)).
+Lemma new_db_fresh_ok s k lv bits rs names cols : state_ok s -> state_ok (fst (new_db_fresh s k lv bits rs names cols)).
 Proof.
-  intros Hs Hlen Hnil. unfold new_db_fresh.
-  destruct (negb (forallb (fun c => (length (snd c) =? length names)%nat) cols)) eqn:Ec; [exact Hs|].
-  apply negb_false_iff in Ec. unfold alloc_csr.
+  intros Hs. unfold new_db_fresh.
+  destruct (negb _) eqn:Ec; [exact Hs|].
+  apply negb_false_iff, andb_true_iff in Ec. destruct Ec as [Hlen Ec]. apply Nat.eqb_eq in Hlen. unfold alloc_csr.
   destruct (alloc_cols (bufs s ++ [BQ (enc_data rs); BZ (enc_idx rs); BZ (enc_ptr 0 rs)]) cols) as [bs2 ps] eqn:Ea. cbn [fst].
   destruct (alloc_cols_app cols (bufs s ++ [BQ (enc_data rs); BZ (enc_idx rs); BZ (enc_ptr 0 rs)])) as [e He]. rewrite Ea in He. simpl in He.
   rewrite He, <- app_assoc. apply push_ok; [exact Hs|]. rewrite app_assoc, <- He.
@@ -203,8 +192,7 @@ Proof.
   - rewrite He, !app_length. simpl. lia.
   - exact Hf.
   - eapply alloc_cols_fit; eassumption.
-  - unfold fp_num, view. cbn [drows oarr]. rewrite He, view_rows_alloc. symmetry. exact Hlen.
-  - intro Hn. eapply alloc_cols_nil; [exact Ea | auto].
+  - unfold fp_num, view. cbn [drows oarr]. rewrite He, view_rows_alloc. exact Hlen.
 Qed.
 
 (* ---- databases on existing buffers *)
@@ -212,11 +200,10 @@ Lemma new_db_shared_ok s e k lv c names ps :
   state_ok s ->
   (cdata c < length (bufs s ++ e) /\ cind c < length (bufs s ++ e) /\ cptr c < length (bufs s ++ e))%nat ->
   Forall (fun kc => (snd kc < length (bufs s ++ e))%nat) ps ->
-  length names = length (view_rows (bufs s ++ e) c) -> (names = [] -> ps = []) ->
   state_ok (fst (new_db_shared s (bufs s ++ e) k lv c names ps)).
 Proof.
-  intros Hs Hc Hp Hn Hnil. unfold new_db_shared.
-  destruct (negb (props_fit (bufs s ++ e) ps (length names))) eqn:Ef; [exact Hs|]. apply negb_false_iff in Ef.
+  intros Hs Hc Hp. unfold new_db_shared.
+  destruct (negb _) eqn:Ef; [exact Hs|]. apply negb_false_iff, andb_true_iff in Ef. destruct Ef as [Hn Ef]. apply Nat.eqb_eq in Hn.
   cbn [fst]. apply push_ok; [exact Hs|]. repeat split; cbn [oarr oprops onames oindex]; try tauto.
 Qed.
 
@@ -240,12 +227,11 @@ Lemma h_astype_ok s oid o k cp : state_ok s -> nth_error (objs s) oid = Some o -
 Proof.
   intros Hs Ho. unfold h_astype. destruct (kind_eqb k (okind o) && negb cp); [exact Hs|].
   destruct (oarr o) as [c|] eqn:Ea; [|exact Hs].
-  destruct (Hs _ _ Ho) as ((Hr1 & Hr2) & Hf & Hn & Hi & He). rewrite Ea in Hr1.
+  destruct (Hs _ _ Ho) as ((Hr1 & Hr2) & Hf & Hn & Hi). rewrite Ea in Hr1.
   destruct (csr_astype (bufs s) c (okind o) k) as [bs1 c1] eqn:Ec.
   destruct (csr_astype_spec _ _ _ _ _ _ Ec Hr1) as (e & -> & Hc1 & Hp & _ & _ & _).
   apply new_db_shared_ok; try assumption.
   - eapply Forall_lt_app; [exact Hr2 | rewrite app_length; lia].
-  - rewrite view_rows_length, Hp, getZ_app by tauto. rewrite Hn. unfold fp_num, view. cbn [drows]. rewrite Ea. apply view_rows_length.
 Qed.
 
 (* ---- fold *)
@@ -265,7 +251,7 @@ Proof.
   intros Hs Ho. unfold h_fold. destruct (oarr o) as [c|] eqn:Ea; [|exact Hs].
   destruct (cbits c <? nb); [exact Hs|]. destruct (nb =? 0); [exact Hs|]. destruct (negb (pow2_ratio (cbits c) nb)); [exact Hs|].
   cbv zeta. rewrite sum_duplicates_fresh.
-  destruct (Hs _ _ Ho) as ((Hr1 & Hr2) & Hf & Hn & Hi & He). rewrite Ea in Hr1.
+  destruct (Hs _ _ Ho) as ((Hr1 & Hr2) & Hf & Hn & Hi). rewrite Ea in Hr1.
   set (bs1 := bufs s ++ [BQ (getQ (bufs s) (cdata c)); BZ (map (fun i => i mod nb) (getZ (bufs s) (cind c))); BZ (getZ (bufs s) (cptr c))]).
   set (t := mkcsr (length (bufs s)) (S (length (bufs s))) (S (S (length (bufs s)))) (cbits c)).
   set (rs1 := map (sum_dups (okind o)) (view_rows bs1 t)).
@@ -284,10 +270,6 @@ Proof.
   { subst bs3 bs2. rewrite <- !app_assoc. reflexivity. }
   rewrite Hb in *. apply new_db_shared_ok; try assumption.
   - eapply Forall_lt_app; [exact Hr2 | rewrite app_length; lia].
-  - rewrite view_rows_length, Hp. rewrite <- Hb. unfold getZ. subst c3 bs3. cbn [cptr].
-    rewrite <- app_assoc. cbn [app]. rewrite nth_error_app_len2. rewrite ptr_lens_enc, map_length.
-    subst rs3 rs1. rewrite !map_length. rewrite view_rows_length. subst t bs1. cbn [cptr]. unfold getZ at 1. rewrite nth_error_app_len2.
-    rewrite Hn. unfold fp_num, view. cbn [drows]. rewrite Ea. apply view_rows_length.
 Qed.
 
 (* ---- add_fingerprints *)
@@ -295,42 +277,26 @@ Lemma h_add_ok s oid o fps : state_ok s -> nth_error (objs s) oid = Some o -> st
 Proof.
   intros Hs Ho. unfold h_add.
   destruct (add_precheck (view (bufs s) o) fps) as [p|e0] eqn:Hp; [|exact Hs].
-  destruct (Hs _ _ Ho) as ((Hr1 & Hr2) & Hf & Hn & Hi & He).
+  destruct (Hs _ _ Ho) as ((Hr1 & Hr2) & Hf & Hn & Hi).
   unfold add_precheck in Hp. destruct fps as [|f0 t]; [discriminate|].
   destruct (check_valid _ _ (f0 :: t)); [discriminate|].
-  set (pn := if 0 <? Z.of_nat (fp_num (view (bufs s) o)) then map fst (dprops (view (bufs s) o)) else map fst (fi_props f0)) in *.
+  set (pn := if (0 <? Z.of_nat (fp_num (view (bufs s) o))) || (0 <? Z.of_nat (length (dprops (view (bufs s) o)))) then map fst (dprops (view (bufs s) o)) else map fst (fi_props f0)) in *.
   destruct (collect (dkind (view (bufs s) o)) pn (f0 :: t)) as [[[rs ns] pvs]|] eqn:Ec; simpl in Hp; [|discriminate]. inv Hp.
   destruct (collect_lengths _ _ _ _ _ _ Ec) as (L1 & L2 & L3).
   cbn [ap_names ap_cols ap_rows ap_bits onames]. unfold alloc_csr. cbv beta iota zeta. cbn [onames okind olevel oarr oindex].
   set (rows' := drows (view (bufs s) o) ++ rs).
   set (bits' := match dbits (view (bufs s) o) with Some b => b | None => fbits (fi_fp f0) end).
   set (bs1 := bufs s ++ [BQ (enc_data rows'); BZ (enc_idx rows'); BZ (enc_ptr 0 rows')]).
-  destruct (prep_props (dprops (view (bufs s) o)) (length (onames o ++ ns)) (transpose pn pvs) true true) as [r|e1] eqn:Epp.
-  2:{ (* cannot happen (h_add_atomic), but the state is still well formed *)
-      cbn [fst]. subst bs1. apply set_ok; [exact Hs|].
-      repeat split; cbn [oarr oprops onames oindex cdata cind cptr].
-      - rewrite app_length. simpl. lia.
-      - rewrite app_length. simpl. lia.
-      - rewrite app_length. simpl. lia.
-      - eapply Forall_lt_app; [exact Hr2 | rewrite app_length; lia].
-      - exfalso.
-        destruct (prep_props_append_ok (dprops (view (bufs s) o)) (length (onames o)) (length (f0 :: t)) (transpose pn pvs)) as [r Hr].
-        + intros c0 Hin. destruct (transpose_spec _ _ _ Hin) as [T1 T2]. split; [congruence|].
-          subst pn. destruct (0 <? Z.of_nat (fp_num (view (bufs s) o))) eqn:E0.
-          * right. apply aget_in_keys. exact T2.
-          * left. apply Z.ltb_ge in E0. lia.
-        + intros k o1 Hk. cbn [view dprops] in Hk. eapply props_fit_len; eassumption.
-        + rewrite app_length, L2 in Epp. congruence.
-      - exfalso.
-        destruct (prep_props_append_ok (dprops (view (bufs s) o)) (length (onames o)) (length (f0 :: t)) (transpose pn pvs)) as [r Hr].
-        + intros c0 Hin. destruct (transpose_spec _ _ _ Hin) as [T1 T2]. split; [congruence|].
-          subst pn. destruct (0 <? Z.of_nat (fp_num (view (bufs s) o))) eqn:E0.
-          * right. apply aget_in_keys. exact T2.
-          * left. apply Z.ltb_ge in E0. lia.
-        + intros k o1 Hk. cbn [view dprops] in Hk. eapply props_fit_len; eassumption.
-        + rewrite app_length, L2 in Epp. congruence.
-      - rewrite Hi, names_map_app. f_equal. rewrite Hn. lia.
-      - intro Hnil. apply app_eq_nil in Hnil. destruct Hnil as [_ Hnil]. subst ns. simpl in L2. discriminate. }
+  (* update_props(new_props, append=True) cannot fail: every column is extended by one value per new fingerprint *)
+  destruct (prep_props_append_ok (dprops (view (bufs s) o)) (length (onames o)) (length (f0 :: t)) (transpose pn pvs)) as [r Hr].
+  { intros c0 Hin. destruct (transpose_spec _ _ _ Hin) as [T1 T2]. split; [congruence|].
+    subst pn. destruct ((0 <? Z.of_nat (fp_num (view (bufs s) o))) || (0 <? Z.of_nat (length (dprops (view (bufs s) o))))) eqn:E0.
+    - right. apply aget_in_keys. exact T2.
+    - left. apply orb_false_iff in E0. destruct E0 as [E0 _]. apply Z.ltb_ge in E0. lia. }
+  { intros k o1 Hk. cbn [view dprops] in Hk. eapply props_fit_len; eassumption. }
+  assert (Epp : prep_props (dprops (view (bufs s) o)) (length (onames o ++ ns)) (transpose pn pvs) true true = Ok r).
+  { rewrite app_length, L2. exact Hr. }
+  rewrite Epp.
   destruct (store_cols bs1 (oprops o) r) as [bs2 ps] eqn:Es. cbn [fst].
   destruct (store_cols_app r bs1 (oprops o)) as [e2 He2]. rewrite Es in He2. simpl in He2.
   assert (Hb : bs2 = bufs s ++ ([BQ (enc_data rows'); BZ (enc_idx rows'); BZ (enc_ptr 0 rows')] ++ e2)).
@@ -339,10 +305,10 @@ Proof.
   - intros c Hin. eapply prep_props_len; eassumption.
   - eapply Forall_lt_app; [exact Hr2 | subst bs1; rewrite app_length; lia].
   - intros k i Hk. right. rewrite (prep_props_keys _ _ _ _ _ _ Epp), transpose_keys. subst pn.
-    destruct (0 <? Z.of_nat (fp_num (view (bufs s) o))) eqn:E0.
+    destruct ((0 <? Z.of_nat (fp_num (view (bufs s) o))) || (0 <? Z.of_nat (length (dprops (view (bufs s) o))))) eqn:E0.
     + cbn [view dprops]. rewrite map_map. simpl. eapply aget_keys. exact Hk.
-    + apply Z.ltb_ge in E0. assert (onames o = []) as Hnil by (destruct (onames o); [reflexivity | simpl in Hn; lia]).
-      rewrite (He Hnil) in Hk. discriminate.
+    + apply orb_false_iff in E0. destruct E0 as [_ E0]. apply Z.ltb_ge in E0. cbn [view dprops] in E0. rewrite map_length in E0.
+      destruct (oprops o); [discriminate | simpl in E0; lia].
   - rewrite Hb. apply set_ok; [exact Hs|]. rewrite <- Hb.
     repeat split; cbn [oarr oprops onames oindex cdata cind cptr].
     + rewrite Hb, !app_length. simpl. lia.
@@ -353,16 +319,15 @@ Proof.
     + unfold fp_num, view. cbn [drows oarr]. rewrite He2. subst bs1. rewrite view_rows_alloc. subst rows'.
       rewrite !app_length, L1, L2. f_equal. exact Hn.
     + rewrite Hi, names_map_app. f_equal. rewrite Hn. lia.
-    + intro Hnil. apply app_eq_nil in Hnil. destruct Hnil as [_ Hnil]. subst ns. simpl in L2. discriminate.
 Qed.
 
 (* ---- update_props / set_prop *)
-Lemma h_update_props_ok s oid o cols :
-  state_ok s -> nth_error (objs s) oid = Some o -> (onames o <> [] \/ cols = []) -> state_ok (fst (h_update_props s oid o cols)).
+Lemma h_update_props_ok s oid o cols ap :
+  state_ok s -> nth_error (objs s) oid = Some o -> state_ok (fst (h_update_props s oid o cols ap)).
 Proof.
-  intros Hs Ho Hd. unfold h_update_props.
-  destruct (prep_props (dprops (view (bufs s) o)) (length (onames o)) cols false true) as [r|] eqn:Epp; [|exact Hs].
-  destruct (Hs _ _ Ho) as ((Hr1 & Hr2) & Hf & Hn & Hi & He).
+  intros Hs Ho. unfold h_update_props.
+  destruct (prep_props (dprops (view (bufs s) o)) (length (onames o)) cols ap true) as [r|] eqn:Epp; [|exact Hs].
+  destruct (Hs _ _ Ho) as ((Hr1 & Hr2) & Hf & Hn & Hi).
   destruct (store_cols (bufs s) (oprops o) r) as [bs1 ps] eqn:Es. cbn [fst].
   destruct (store_cols_app r (bufs s) (oprops o)) as [e He2]. rewrite Es in He2. simpl in He2. subst bs1.
   destruct (store_cols_fit (length (onames o)) r (bufs s) (oprops o) _ ps Es) as [Hp2 Hl2].
@@ -376,7 +341,6 @@ Proof.
     + unfold fp_num, view. cbn [drows oarr]. unfold fp_num, view in Hn. cbn [drows] in Hn.
       destruct (oarr o) eqn:Ea; [|exact Hn]. rewrite view_rows_app; [exact Hn | exact Hr1].
     + exact Hi.
-    + intro Hnil. destruct Hd as [Hd| ->]; [contradiction|]. simpl in Epp. inv Epp. simpl in Es. inv Es. auto.
 Qed.
 
 (* ---- get_subset / db[name]: the index is read, never extended *)
@@ -393,7 +357,7 @@ Proof.
   rewrite (same_state _ _ _ Ho).
   destruct pairs as [|p0 pt] eqn:Epairs; [exact Hs|]. rewrite <- Epairs.
   destruct (dbits (view (bufs s) o)); [|exact Hs].
-  apply new_db_fresh_ok; [exact Hs | rewrite !map_length; reflexivity | subst pairs; simpl; discriminate].
+  apply new_db_fresh_ok. exact Hs.
 Qed.
 
 Lemma h_getname_ok s oid o nm : state_ok s -> nth_error (objs s) oid = Some o -> state_ok (fst (h_getname s oid o nm)).
@@ -410,11 +374,10 @@ Proof.
   apply fit_of_lookup. intros k i Hk. apply (Hc k). rewrite <- Hv, aget_map, Hk. reflexivity.
 Qed.
 
-Lemma h_pickle_ok s h : state_ok s -> state_ok (fst (step s (OpPickle h))).
+Lemma h_pickle_ok s oid o : state_ok s -> nth_error (objs s) oid = Some o -> state_ok (fst (h_pickle s o)).
 Proof.
-  intro Hs. cbn [step]. destruct (lookup s h) as [[oid o]|] eqn:El; [|exact Hs].
-  pose proof (lookup_nth _ _ _ _ El) as Ho. unfold h_pickle.
-  destruct (Hs _ _ Ho) as ((Hr1 & Hr2) & Hf & Hn & Hi & He).
+  intros Hs Ho. unfold h_pickle.
+  destruct (Hs _ _ Ho) as ((Hr1 & Hr2) & Hf & Hn & Hi).
   assert (Hcols : forall k v, aget k (dprops (view (bufs s) o)) = Some v -> length v = length (onames o)).
   { intros k v Hk. cbn [view dprops] in Hk. eapply props_fit_len; eassumption. }
   destruct (dbits (view (bufs s) o)) as [b|] eqn:Eb.
@@ -433,7 +396,6 @@ Proof.
     + exact Hp2.
     + eapply alloc_cols_fit'; eassumption.
     + unfold fp_num at 1. unfold view at 1. cbn [drows oarr]. rewrite He2. subst bs1. rewrite view_rows_alloc. exact Hn.
-    + intro Hnil. eapply alloc_cols_nil; [exact Ea|]. cbn [view dprops]. rewrite (He Hnil). reflexivity.
   - destruct (alloc_cols (bufs s) (dprops (view (bufs s) o))) as [bs2 ps] eqn:Ea. cbn [fst].
     destruct (alloc_cols_app (dprops (view (bufs s) o)) (bufs s)) as [e He2]. rewrite Ea in He2. simpl in He2. subst bs2.
     destruct (alloc_cols_view _ _ _ _ [] Ea) as [_ Hp2].
@@ -445,7 +407,6 @@ Proof.
     + exact Hp2.
     + eapply alloc_cols_fit'; eassumption.
     + rewrite Hnil. reflexivity.
-    + intros _. eapply alloc_cols_nil; [exact Ea|]. cbn [view dprops]. rewrite (He Hnil). reflexivity.
 Qed.
 
 (* ---- concat *)
@@ -453,17 +414,15 @@ Lemma concat_props_nil acc : concat_props acc [] = acc.
 Proof. reflexivity. Qed.
 
 Lemma concat_loop_inv lv bits k : forall ds rows names props rows' names' props',
-  Forall (fun d => length (dnames d) = length (drows d) /\ (dnames d = [] -> dprops d = [])) ds ->
-  length rows = length names -> (names = [] -> props = []) ->
+  Forall (fun d => length (dnames d) = length (drows d)) ds ->
+  length rows = length names ->
   concat_loop lv bits k ds rows names props = Ok (rows', names', props') ->
-  length rows' = length names' /\ (names' = [] -> props' = []).
+  length rows' = length names'.
 Proof.
-  induction ds as [|d t IH]; intros rows names props rows' names' props' Hd Hl Hn H; simpl in H.
+  induction ds as [|d t IH]; intros rows names props rows' names' props' Hd Hl H; simpl in H.
   - inv H. auto.
-  - repeat (dmatch; [discriminate|]). inv Hd. destruct H2 as [H2a H2b].
-    eapply IH; [exact H3 | | | exact H].
-    + rewrite !app_length. lia.
-    + intro Hnil. apply app_eq_nil in Hnil. destruct Hnil as [N1 N2]. rewrite (Hn N1), (H2b N2). reflexivity.
+  - repeat (dmatch; [discriminate|]). inv Hd.
+    eapply IH; [exact H3 | | exact H]. rewrite !app_length. lia.
 Qed.
 
 Lemma lookup_all_nth s hs : forall os, lookup_all s hs = Some os -> Forall (fun o => exists oid, nth_error (objs s) oid = Some o) os.
@@ -480,12 +439,11 @@ Proof.
   destruct (concat_loop (dlevel d0) (dbits d0) (dkind d0) (d0 :: dt) [] [] []) as [[[rows names] props]|] eqn:El; [|exact Hs].
   destruct (dbits d0); [|exact Hs].
   destruct (negb (forallb (fun c => (length (snd c) =? length rows)%nat) props)) eqn:Ef; [exact Hs|]. apply negb_false_iff in Ef.
-  assert (Hinv : length rows = length names /\ (names = [] -> props = [])).
-  { eapply concat_loop_inv with (rows := []) (names := []) (props := []); [ | reflexivity | reflexivity | exact El].
+  assert (Hl : length rows = length names).
+  { eapply concat_loop_inv with (rows := []) (names := []) (props := []); [ | reflexivity | exact El].
     rewrite <- Eds. rewrite Forall_forall. intros d Hin. apply in_map_iff in Hin. destruct Hin as (o & <- & Hin).
-    rewrite Forall_forall in Hos. destruct (Hos _ Hin) as [oid Ho]. destruct (Hs _ _ Ho) as (_ & _ & Hn & _ & He).
-    cbn [view dnames drows dprops]. split; [exact Hn|]. intro Hnil. rewrite (He Hnil). reflexivity. }
-  destruct Hinv as [Hl Hn].
+    rewrite Forall_forall in Hos. destruct (Hos _ Hin) as [oid Ho]. destruct (Hs _ _ Ho) as (_ & _ & Hn & _).
+    cbn [view dnames drows dprops]. exact Hn. }
   unfold alloc_csr.
   set (bs1 := bufs s ++ [BQ (enc_data rows); BZ (enc_idx rows); BZ (enc_ptr 0 rows)]).
   destruct (alloc_cols bs1 props) as [bs2 ps] eqn:Ea. cbn [fst].
@@ -501,16 +459,15 @@ Proof.
   - exact Hp2.
   - eapply alloc_cols_fit; [exact Ea|]. rewrite <- Hl. exact Ef.
   - unfold fp_num, view. cbn [drows oarr]. rewrite He2. subst bs1. rewrite view_rows_alloc. symmetry. exact Hl.
-  - intro Hnil. eapply alloc_cols_nil; [exact Ea | auto].
 Qed.
 
 (* ---- every operation *)
-Theorem step_ok s o : state_ok s -> op_dom s o -> state_ok (fst (step s o)).
+Theorem step_ok s o : state_ok s -> state_ok (fst (step s o)).
 Proof.
-  intros Hs Hd. destruct o; simpl.
-  - rewrite <- (app_nil_r (bufs s)). apply push_ok; [exact Hs|]. rewrite app_nil_r.
+  intros Hs. destruct o; cbn [step].
+  - cbn [fst]. rewrite <- (app_nil_r (bufs s)). apply push_ok; [exact Hs|]. rewrite app_nil_r.
     repeat split; cbn [oarr oprops onames oindex]; auto.
-  - simpl in Hd. destruct Hd as [Hl Hn]. apply new_db_fresh_ok; [exact Hs | unfold input_rows; rewrite map_length; exact Hl | exact Hn].
+  - apply new_db_fresh_ok. exact Hs.
   - destruct (lookup s h) as [[oid ob]|] eqn:El; [|exact Hs]. apply h_add_ok; eauto using lookup_nth.
   - destruct (lookup s h) as [[oid ob]|] eqn:El; [|exact Hs]. apply h_update_props_ok; eauto using lookup_nth.
   - destruct (lookup s h) as [[oid ob]|] eqn:El; [|exact Hs]. apply h_update_props_ok; eauto using lookup_nth.
@@ -518,7 +475,8 @@ Proof.
   - destruct (lookup s h) as [[oid ob]|] eqn:El; [|exact Hs]. apply h_astype_ok; eauto using lookup_nth.
   - destruct (lookup s h) as [[oid ob]|] eqn:El; [|exact Hs]. apply h_fold_ok; eauto using lookup_nth.
   - destruct (lookup s h) as [[oid ob]|] eqn:El; [|exact Hs]. apply h_astype_ok; eauto using lookup_nth.
-  - apply (h_pickle_ok s h Hs).
+  - destruct (lookup s h) as [[oid ob]|] eqn:El; [|exact Hs]. eapply h_pickle_ok; eauto using lookup_nth.
+  - destruct (lookup s h) as [[oid ob]|] eqn:El; [|exact Hs]. destruct (fpz && _); [exact Hs|]. eapply h_pickle_ok; eauto using lookup_nth.
   - destruct (lookup_all s hs) eqn:El; [|exact Hs]. apply h_concat_ok; [exact Hs | eapply lookup_all_nth; exact El].
   - destruct (lookup s h) as [[oid ob]|]; exact Hs.
   - destruct (lookup s h) as [[oid ob]|] eqn:El; [|exact Hs]. apply h_getname_ok; eauto using lookup_nth.
@@ -530,24 +488,21 @@ Proof.
     unfold h_metric. repeat dmatch; exact Hs.
 Qed.
 
-Fixpoint ops_dom (s : state) (ops : list op) : Prop :=
-  match ops with [] => True | o :: t => op_dom s o /\ ops_dom (fst (step s o)) t end.
-
 Lemma init_ok : state_ok init.
 Proof. intros oid o H. destruct oid; discriminate. Qed.
 
-Theorem run_ok : forall ops s, state_ok s -> ops_dom s ops -> state_ok (run s ops).
+(* the invariant holds after ANY operation list: no hypothesis on the operations *)
+Theorem run_ok : forall ops s, state_ok s -> state_ok (run s ops).
 Proof.
-  induction ops as [|o t IH]; intros s Hs Hd; simpl; [exact Hs|].
-  destruct Hd as [Hd1 Hd2]. apply IH; [apply step_ok; assumption | exact Hd2].
+  induction ops as [|o t IH]; intros s Hs; simpl; [exact Hs|]. apply IH. apply step_ok. exact Hs.
 Qed.
 
 Lemma state_ok_aligned s : state_ok s -> aligned s.
 Proof. intros Hs oid o Ho. destruct (Hs _ _ Ho) as (_ & Hf & Hn & _). auto. Qed.
 
 Theorem refusal_atomic_any_history ops o s' e :
-  ops_dom init ops -> step (run init ops) o = (s', Raises e) -> s' = run init ops.
+  step (run init ops) o = (s', Raises e) -> s' = run init ops.
 Proof.
-  intros Hd H. eapply refusal_atomic; [|exact H].
-  apply state_ok_aligned. apply run_ok; [apply init_ok | exact Hd].
+  intros H. eapply refusal_atomic; [|exact H].
+  apply state_ok_aligned. apply run_ok. apply init_ok.
 Qed.
